@@ -20,8 +20,12 @@ func run(c *core.Ctx) {
 	c.Assume("format validity comes from constructive tables (each string is valid or invalid by construction); strings outside the tables are never sent for format-validated attributes")
 	c.Assume("the wire is in-memory (see C02)")
 	c.Rule("deep positions (JSON bodies): " + spec.DeepValidationDoc + "; the unvalidated deep-shape families (required attributes and defaults at inner levels) are run as well: " + spec.DeepShapesDoc)
+	c.Rule("validations on the HTTP mapping: " + spec.HTTPValidationDoc)
+	c.Rule("validated streamed messages (driver mode C04S): " + spec.StreamValidationDoc)
+	c.Assume("streaming: generated client stream <-> loopback TCP (httptest.Server, gorilla/websocket) <-> generated server stream; both ends follow scripts fixed before the exchange, the receiving side stops at the first error of Recv; what the sending side observes afterwards is not asserted; a side still blocked after 20 s is a harness error")
 	for _, f := range []check.Family{families.PayloadValidation(c.Thorough()), families.ResultValidation(c.Thorough()), families.PayloadValidationPairs(), families.ResultValidationPairs(), families.CrossService(),
-		families.DeepPayloadValidation(c.Thorough()), families.DeepResultValidation(c.Thorough()), families.DeepPayloadShapes(c.Thorough()), families.DeepResultShapes(c.Thorough())} {
+		families.DeepPayloadValidation(c.Thorough()), families.DeepResultValidation(c.Thorough()), families.DeepPayloadShapes(c.Thorough()), families.DeepResultShapes(c.Thorough()),
+		families.HTTPValidation(c.Thorough())} {
 		corpus, err := check.BuildFamily(c, f)
 		if err != nil {
 			c.HarnessError("%s: %v", f.Name, err)
@@ -30,6 +34,16 @@ func run(c *core.Ctx) {
 		if err := check.RunMode(c, corpus, "C04"); err != nil {
 			c.HarnessError("%s: %v", f.Name, err)
 		}
+	}
+	// streamed messages: both tiers (an exchange over the loopback takes about a millisecond)
+	f := families.StreamValidation(c.Thorough())
+	corpus, err := check.BuildFamily(c, f)
+	if err != nil {
+		c.HarnessError("%s: %v", f.Name, err)
+		return
+	}
+	if err := check.RunMode(c, corpus, "C04S"); err != nil {
+		c.HarnessError("%s: %v", f.Name, err)
 	}
 }
 
